@@ -57,6 +57,20 @@ Theorem c04_from_i32 : forall z,
   code_from_i32 z = if ((0 <=? z) && (z <=? 16))%Z then Z.to_N z else Code_Unknown.
 Proof. exact from_i32_spec. Qed.
 
+
+(* a stream reset by the peer with HTTP/2 error code r (hyper error whose source is the h2
+   error), and an h2 error handed to Status::from_error directly: classified by the table *)
+Theorem c04_reset_stream : forall r, h2_spec_ok r (reset_stream_code r) = true.
+Proof. exact reset_stream_spec. Qed.
+
+Theorem c04_from_error_h2 : forall r rest, h2_spec_ok r (from_error_code (EH2 (Some r) :: rest)) = true.
+Proof. exact from_error_h2_spec. Qed.
+
+Theorem c04_from_error_wrappers : forall l,
+  from_error_code (EOther :: l) =
+  match find_status_in_chain l with Some c => c | None => Code_Unknown end.
+Proof. exact from_error_skips_unknown_wrappers. Qed.
+
 (* non-vacuity: a concrete hostile-looking status meets the hypotheses of the round trip *)
 Example c04_roundtrip_premises_hold :
   let st := mkStatus 5 [97; 58; 37; 32; 127; 195; 169] [0; 255; 7; 9]
@@ -70,3 +84,4 @@ Print Assumptions c04_header_values_legal.
 Print Assumptions c04_from_header_map_total.
 Print Assumptions c04_http_table.
 Print Assumptions c04_h2_table.
+Print Assumptions c04_reset_stream.
